@@ -114,10 +114,10 @@ pub fn lockstep(g: &Grammar, l: &Lock, via_file: Option<&std::path::Path>) -> V 
     let located = match vcore::reftok::lex(&l.text) {
         Ok(lexed) => match vcore::interp::recognise(g, &lexed) {
             // (the reference interpreter does not look inside A2ML / IF_DATA)
-            Err(rej) if l.r5 && !has_ifdata && !l.text.contains("A2ML") && matches!(rej.class, Class::WrongType | Class::IdentForString | Class::BadNumber | Class::BadEnum | Class::UnknownTag | Class::BlockTooNew | Class::EnumTooNew | Class::EndTag | Class::NeedsBlock | Class::NeedsKeyword | Class::BadIdent) => {
+            Err(rej) if l.r5 && !has_ifdata && !l.text.contains("A2ML") && matches!(rej.class, Class::WrongType | Class::IdentForString | Class::BadNumber | Class::BadEnum | Class::UnknownTag | Class::BlockTooNew | Class::EnumTooNew | Class::EndTag | Class::NeedsBlock | Class::NeedsKeyword | Class::BadIdent | Class::Missing | Class::Trailing) => {
                 // after a recoverable problem the non-strict parser goes on; if it fails later, the
                 // warning is not observable (the log is only returned on success)
-                recoverable = matches!(rej.class, Class::IdentForString | Class::UnknownTag | Class::BlockTooNew | Class::EnumTooNew | Class::EndTag | Class::BadIdent);
+                recoverable = matches!(rej.class, Class::IdentForString | Class::UnknownTag | Class::BlockTooNew | Class::EnumTooNew | Class::EndTag | Class::BadIdent | Class::Missing | Class::Trailing);
                 lexed.tokens.get(rej.at).map(|t| t.line)
             }
             _ => None,
@@ -457,6 +457,20 @@ pub fn build(g: &Grammar, thorough: bool) -> Vec<Lock> {
     }
     out.extend(version_faults(g));
     out.extend(token_mutations(g, thorough));
+    // a required element is missing (detected at the token that ends the parent) / tokens behind /end PROJECT (detected at the
+    // first surplus token): one token per line, the detecting token on a later line than its predecessor
+    for d in corpus::missing_required(g) {
+        out.push(Lock { text: render_one_per_line(&d.doc.tokens()), label: format!("{} (one token per line)", d.label), class: "missing-required".into(), fault_tok: None, r5: true, elem_lines: None });
+        out.push(Lock { text: render_one_per_line(&d.doc.tokens()).replace("/end PROJECT", "\n/* c */\n\n/end PROJECT"), label: format!("{} (one token per line, comment and blank lines in front of /end PROJECT)", d.label), class: "missing-required".into(), fault_tok: None, r5: true, elem_lines: None });
+    }
+    {
+        let base = render_one_per_line(&corpus::carriers(g)[0].doc.tokens());
+        for (n, surplus) in [("number", "1"), ("string", "\"s\""), ("end", "/end"), ("identifier", "SURPLUS"), ("begin", "/begin SURPLUS"), ("float", "1.5e3"), ("end-project", "/end PROJECT")] {
+            for gap in ["\n", "\n\n\n", "\n/* c */\n", " "] {
+                out.push(Lock { text: format!("{}{gap}{surplus}\n", base.trim_end()), label: format!("surplus {n} behind /end PROJECT after {gap:?}"), class: format!("trailing-{n}"), fault_tok: None, r5: true, elem_lines: None });
+            }
+        }
+    }
     // IF_DATA described by an in-file A2ML definition: the conforming instances and every deviation of the C18 space
     // (R1, R2 and - when non-strict loading is silent - R4 apply to IF_DATA as well)
     for plan in crate::c18::plans(false) {
@@ -581,7 +595,7 @@ pub fn run(tier: &str) -> Run {
     run.require("both-err,line-checked", 300);
     run.require("include: file and line checked", 200);
     run.require("trailing: file and line checked", 3);
-    run.rule = "lockstep of strict and non-strict load on: the C04 space (valid documents x 6 versions, single deviations), located single faults rendered one token per line (wrong lexical class at every fixed parameter, bad enum item, malformed number, block form, wrong end tag, unknown block, element newer than the file version), every token deletion/duplication/swap and truncation of every carrier; thorough adds all pairs of deviations; IF_DATA under an in-file A2ML definition: every conforming instance and every deviation of the C18 space for definitions of depth <= 2 (R1, R2, R4 when non-strict loading is silent). Relations R1..R5 of DESIGN.md; every 7th located fault also through load(file) to check the file name; every 5th (thorough: every) located fault with (a) the whole element under test and (b) only the line of the faulty token moved to an include file: the diagnostic must name that file and the line inside it; surplus tokens behind /end PROJECT in the main file, an include file and a nested include file. distinct = distinct text; non-trivial = at least one mode reports something".into();
+    run.rule = "lockstep of strict and non-strict load on: the C04 space (valid documents x 6 versions, single deviations), located single faults rendered one token per line (wrong lexical class at every fixed parameter, bad enum item, malformed number, block form, wrong end tag, unknown block, element newer than the file version, required element missing, surplus number / string / /end / identifier / /begin behind /end PROJECT after four kinds of gap), every token deletion/duplication/swap and truncation of every carrier; thorough adds all pairs of deviations; IF_DATA under an in-file A2ML definition: every conforming instance and every deviation of the C18 space for definitions of depth <= 3 (R1, R2, R4 when non-strict loading is silent). Relations R1..R5 of DESIGN.md; every 7th located fault also through load(file) to check the file name; every 5th (thorough: every) located fault with (a) the whole element under test and (b) only the line of the faulty token moved to an include file: the diagnostic must name that file and the line inside it; surplus tokens behind /end PROJECT in the main file, an include file and a nested include file. distinct = distinct text; non-trivial = at least one mode reports something".into();
     run
 }
 
